@@ -911,6 +911,126 @@ def aux_case(case):
             (got[p][k] is None if exp[p][k] is None else du.same_value(got[p][k], exp[p][k]))
             for p in exp for k in exp[p])
         r.check(ok, 'fitting-option', 'fitting/multi', got=repr(got), want=exp)
+    elif kind == 'fit_apply':
+        # the [Fitting] section applied to a real optimiser (setup_optimizer) against the same settings made through
+        # the optimiser's own methods: names, order, values, boundaries and priors after compilation
+        from mc import doubles_retrieval as dr
+        dr.install_opacities()
+        opts = case['opts']              # {param: {option: letter}}
+        RAW = {'fit': {'on': ('True', True), 'off': ('False', False)},
+               'bounds': {'b': ('%r, %r', None)}, 'factor': {'f': ('0.5, 3.0', [0.5, 3.0])},
+               'mode': {'log': ('log', 'log'), 'linear': ('linear', 'linear'), 'Log': ('Log', 'log')},
+               'prior': {'LU': ('"LogUniform(bounds=(-7.0, -1.5))"', None), 'U': ('"Uniform(bounds=(0.6, 1.9))"', None)}}
+        BOUNDS = {'T': [700.0, 1900.0], 'planet_radius': [0.7, 2.1], 'H2O': [1e-8, 1e-2], 'clouds_pressure': [1e1, 1e5]}
+        START = {'T': 1150.0, 'planet_radius': 1.3, 'H2O': 2e-4, 'clouds_pressure': 3e3}
+        items = []
+        for pname in sorted(opts):
+            for o in ('fit', 'factor', 'bounds', 'mode', 'prior'):
+                if o in opts[pname]:
+                    raw = RAW[o][opts[pname][o]][0]
+                    if o == 'bounds':
+                        raw = raw % tuple(BOUNDS[pname])
+                    items.append(('%s:%s' % (pname, o), raw))
+        text = du.par_text([('Fitting', items)])
+
+        def world():
+            pz = dr.build_model('iso')
+            for k_, v_ in START.items():
+                dr.set_param(pz, k_, v_)
+            obs = dr.build_obs('3col-uniform', [0.0109, 0.0108, 0.0110], dr.error_bars('distinct', 3))
+            return pz, dr.make_optimizer('nestle', obs, pz.model, fx.fresh_dir('c15_fit'))
+        pa, oa = world()
+        pb, ob = world()
+        try:
+            du.parser_for(d, text).setup_optimizer(oa)
+            oa.compile_params()
+            err = None
+        except Exception as e:
+            err = e
+        from taurex.core.priors import LogUniform, Uniform
+        for pname in sorted(opts):
+            o = opts[pname]
+            if 'fit' in o:
+                (ob.enable_fit if o['fit'] == 'on' else ob.disable_fit)(pname)
+            else:
+                ob.disable_fit(pname)
+            if 'factor' in o:
+                ob.set_factor_boundary(pname, [0.5, 3.0])
+            if 'bounds' in o:
+                ob.set_boundary(pname, list(BOUNDS[pname]))
+            if 'mode' in o:
+                ob.set_mode(pname, o['mode'].lower())
+            if 'prior' in o:
+                ob.set_prior(pname, LogUniform(bounds=(-7.0, -1.5)) if o['prior'] == 'LU' else Uniform(bounds=(0.6, 1.9)))
+        ob.compile_params()
+        tag = '+'.join(sorted(set(k_ for v_ in opts.values() for k_ in v_)))
+        r.observe(kind, text)
+        if not r.check(err is None, 'fitting-applied', 'fitting-apply/raised/%s/%s' % (tag, exc_sig(err)), exc=repr(err),
+                       text=text):
+            return r
+        r.check(list(oa.fit_names) == list(ob.fit_names), 'fitting-applied', 'fitting-apply/names/' + tag,
+                got=list(oa.fit_names), want=list(ob.fit_names), text=text)
+        if list(oa.fit_names) == list(ob.fit_names):
+            r.eq(np.array(oa.fit_values, float), np.array(ob.fit_values, float), 'fitting-applied',
+                 'fitting-apply/values/' + tag, rtol=1e-12, text=text)
+            r.eq(np.array(oa.fit_boundaries, float), np.array(ob.fit_boundaries, float), 'fitting-applied',
+                 'fitting-apply/boundaries/' + tag, rtol=1e-12, text=text, names=list(oa.fit_names))
+            for pa_, pb_ in zip(oa.fitting_priors, ob.fitting_priors):
+                r.check(type(pa_) is type(pb_) and list(pa_.params()) == list(pb_.params()) if hasattr(pa_, 'params')
+                        else type(pa_) is type(pb_), 'fitting-applied', 'fitting-apply/priors/' + tag,
+                        got=repr(pa_), want=repr(pb_))
+                for u in (0.0, 0.3, 1.0):
+                    r.eq(pa_.sample(u), pb_.sample(u), 'fitting-applied', 'fitting-apply/prior-sample/' + tag, rtol=1e-12)
+    elif kind == 'prebuilt':
+        # generate_model() with some components handed over ready-made: those are used as they are, every other
+        # one is still built from its own section of the file (non-default values in every section)
+        text = du.par_text([
+            ('Chemistry', [('chemistry_type', 'taurex'), ('fill_gases', 'H2,He'), ('ratio', '0.3'),
+                           ('H2O', [('gas_type', 'constant'), ('mix_ratio', '2e-5')])]),
+            ('Temperature', [('profile_type', 'isothermal'), ('T', '1234.0')]),
+            ('Pressure', [('profile_type', 'simple'), ('atm_min_pressure', '1e-2'), ('atm_max_pressure', '1e5'),
+                          ('nlayers', '7')]),
+            ('Planet', [('planet_type', 'simple'), ('planet_mass', '0.7'), ('planet_radius', '1.4')]),
+            ('Star', [('star_type', 'blackbody'), ('temperature', '4321.0'), ('radius', '0.8')]),
+            ('Model', [('model_type', 'transmission'), ('Absorption', [])])])
+        from taurex.data import Planet
+        from taurex.data.stellar import BlackbodyStar
+        from taurex.data.profiles.temperature import Isothermal
+        from taurex.data.profiles.pressure import SimplePressureProfile
+        from taurex.data.profiles.chemistry import TaurexChemistry
+        pre = {'planet': Planet(planet_mass=2.2, planet_radius=0.6), 'star': BlackbodyStar(temperature=6000.0, radius=1.5),
+               'temperature': Isothermal(T=777.0), 'pressure': SimplePressureProfile(nlayers=4, atm_min_pressure=1.0,
+                                                                                      atm_max_pressure=1e4),
+               'chemistry': TaurexChemistry(fill_gases=['H2', 'He'], ratio=0.05)}
+        given = dict((k, pre[k]) for k in case['given'])
+        tag = '+'.join(sorted(case['given'])) or 'none'
+        try:
+            m = du.parser_for(d, text).generate_model(**given)
+            err = None
+        except Exception as e:
+            m, err = None, e
+        r.observe(kind, tag, type(err).__name__)
+        if not r.check(err is None and m is not None, 'prebuilt-components', 'prebuilt/raised/%s/%s' % (tag, exc_sig(err)),
+                       exc=repr(err)):
+            return r
+        got = {'planet': m._planet, 'star': m._star, 'temperature': m._temperature_profile,
+               'pressure': m.pressure, 'chemistry': m._chemistry}
+        facts = {'planet': lambda o: (round(float(o.mass), 9) if o is not None else None),
+                 'star': lambda o: (float(o.temperature) if o is not None else None),
+                 'temperature': lambda o: (float(o.isoTemperature) if o is not None else None),
+                 'pressure': lambda o: (int(o.nLayers) if o is not None else None),
+                 'chemistry': lambda o: (float(np.ravel(o._fill_ratio)[0]) if o is not None else None)}
+        from_file = {'planet': 0.7, 'star': 4321.0, 'temperature': 1234.0, 'pressure': 7, 'chemistry': 0.3}
+        for k in sorted(got):
+            if k in given:
+                r.check(got[k] is given[k], 'prebuilt-components', 'prebuilt/given-not-used/%s/%s' % (k, tag))
+            else:
+                try:
+                    val = facts[k](got[k])
+                except Exception as e:
+                    val = repr(e)
+                r.check(val == from_file[k], 'prebuilt-components', 'prebuilt/section-not-built/%s/given=%s' % (k, tag),
+                        got=val, want=from_file[k])
     elif kind == 'prior':
         ptext, clsname, want = PRIOR_FORMS[case['form']]
         name = {'asdoc': clsname, 'lower': clsname.lower(), 'upper': clsname.upper()}[case['case']]
@@ -1019,6 +1139,27 @@ def enumerate_aux(ctx):
     for m in ('log', 'linear'):
         cases.append({'kind': 'fit_option', 'opt': 'mode', 'letter': m, 'raw': m, 'want': m})
     cases.append({'kind': 'fit_multi'})
+    comps = ['chemistry', 'pressure', 'temperature', 'planet', 'star']
+    for k in range(0, 6):
+        for sub in itertools.combinations(comps, k):
+            cases.append({'kind': 'prebuilt', 'given': list(sub)})
+    # every subset of the five options on one parameter (value different from one, so that factors and absolute
+    # bounds differ), next to a second fitted parameter; and pairs of option sets on two parameters
+    optsets = []
+    for fit in ('on', 'off', None):
+        for fac in ('f', None):
+            for b in ('b', None):
+                for mode in ('log', 'linear', 'Log', None):
+                    for prior in ('LU', 'U', None):
+                        o = dict((k, v) for k, v in (('fit', fit), ('factor', fac), ('bounds', b), ('mode', mode),
+                                                     ('prior', prior)) if v is not None)
+                        optsets.append(o)
+    for o in optsets:
+        if o:
+            cases.append({'kind': 'fit_apply', 'opts': {'planet_radius': o, 'T': {'fit': 'on', 'bounds': 'b'}}})
+    for o in optsets[::7]:
+        if o:
+            cases.append({'kind': 'fit_apply', 'opts': {'H2O': o, 'clouds_pressure': {'fit': 'on', 'factor': 'f'}}})
     for i in range(len(PRIOR_FORMS)):
         for c in ('asdoc', 'lower', 'upper'):
             cases.append({'kind': 'prior', 'form': i, 'case': c})
